@@ -8,12 +8,16 @@
   lock-step and fails when the members are not at compatible collectives — which is
   what real gloo turns into a hang or a process abort.
 
-  The model follows the code literally, defects included:
-    * `gather(dst=rank)` / `broadcast_object_list(src=max)` pass GROUP-RELATIVE numbers
-      where torch expects GLOBAL ranks (`exchange` reads them as torch does);
-    * `sync_states` sizes its result by the GLOBAL world size;
-    * dict states are re-zipped with the LOCAL sorted keys;
-    * a list state that is empty on every rank keeps the `{}` placeholder.
+  The model follows the code literally:
+    * synclib names members by their GROUP rank (`rank=`, `max(object_list)`); torch reads the
+      root of a collective (`dst=` / `src=`) as a GLOBAL rank.  The code translates with
+      `_to_global_rank(group, r)`, here `toGlobal e r = e.grp[r]`; `exchange` reads roots as torch does;
+    * `sync_states` sizes its result by the size of the process group;
+    * dict states are re-zipped with the LOCAL sorted keys (wrong when key sets differ — see the
+      witness theorems of TE.Props.C15);
+    * a list state that is empty on every rank is delivered as `[]` to the receiving ranks;
+    * a metric without any registered state has an (empty) entry in every rank's gathered collection:
+      no collective is issued for it and the toolkit merges empty pseudo-metrics.
 -/
 import TE.Model.Basic
 namespace TE.Sync
@@ -291,10 +295,20 @@ def pmin : List (List Nat) → List Nat
 structure Env where
   me  : Nat           -- dist.get_rank(group)            (group-relative)
   ws  : Nat           -- dist.get_world_size(group)
-  gws : Nat           -- dist.get_world_size()           (global)
-  dst : Option Nat    -- the `rank` argument
+  grp : List Nat      -- the members' GLOBAL ranks in group order (`range(world)` for `group=None`)
+  dst : Option Nat    -- the `rank` argument             (group-relative: compared with `me`)
   junk : Q            -- what `torch.empty` happens to contain
 deriving Repr, Inhabited
+
+/-- `_to_global_rank(group, r)`: `r` for the default group, else `dist.get_global_rank(group, r)`
+    (which raises `ValueError` for a number that is no group rank: `none`). -/
+def toGlobal (e : Env) (r : Nat) : Option Nat := e.grp[r]?
+
+/-- `rank is None or dist.get_rank(group) == rank`: this member receives. -/
+def Env.recv (e : Env) : Bool :=
+  match e.dst with
+  | none => true
+  | some d => e.me == d
 
 /-- what a tensor collective hands back to the caller -/
 def recvTensors : Resp → Prog (Option (List Tensor))
@@ -306,7 +320,10 @@ def recvTensors : Resp → Prog (Option (List Tensor))
 def simpleSend (e : Env) (dst : Option Nat) (t : Tensor) : Prog (Option (List Tensor)) :=
   match dst with
   | none => .coll (.allGather t) recvTensors
-  | some d => .coll (.gather d (e.me == d) t) recvTensors
+  | some d =>
+    match toGlobal e d with
+    | some gd => .coll (.gather gd (e.me == d) t) recvTensors     -- `dst=_to_global_rank(group, rank)`
+    | none => .fail .value
 
 /-- the trimming loop of `_send_uneven_tensors` (`if gathered_result:`). -/
 def trimK (shapes : List (List Nat)) : Option (List Tensor) → Prog (Option (List Tensor))
@@ -378,8 +395,10 @@ def syncDtypeShapeK (e : Env) (t : Option Tensor) (os : List Obj) : Prog (Option
     let mx := rs.foldl max (-1)                      -- `max(object_list)`; the own entry makes the list non-empty
     if mx == -1 then .done none
     else
-      -- `src=rank_with_dtype`: a group-relative number, handed to torch as a global rank
-      .coll (.broadcastObj mx.toNat (dtypePayload e t mx)) recvDtypeShape
+      -- `src=_to_global_rank(process_group, rank_with_dtype)`
+      match toGlobal e mx.toNat with
+      | some gs => .coll (.broadcastObj gs (dtypePayload e t mx)) recvDtypeShape
+      | none => .fail .value
 
 /-- `_sync_dtype_and_shape` -/
 def syncDtypeShape (e : Env) (t : Option Tensor) : Prog (Option (DType × List Nat)) :=
@@ -431,7 +450,8 @@ def listGo (e : Env) (xs : List Tensor) (col : List TState) (lens : List Nat) (d
 
 def syncListDS (e : Env) (xs : List Tensor) (col : List TState) (lens : List Nat) :
     Option (DType × List Nat) → Prog (List TState)
-  | none => .done col                                 -- every rank is empty: the placeholder stays
+  | none =>                                           -- every rank is empty: receiving ranks get `[]`
+    .done (if e.recv then col.map fun _ => TState.list [] else col)
   | some (d, s) => listGo e xs col lens d s
 
 /-- `_sync_list_tensor_states` after the lengths have been gathered. -/
@@ -470,9 +490,7 @@ def rezip (ks : List String) (cell : TState) : TState :=
 
 /-- the re-zipping loop at the end of `_sync_dict_tensor_states` (receiving ranks only). -/
 def rezipAll (e : Env) (ks : List String) (col : List TState) : List TState :=
-  match e.dst with
-  | none => col.map (rezip ks)
-  | some d => if e.me == d then col.map (rezip ks) else col
+  if e.recv then col.map (rezip ks) else col
 
 /-- `_sync_dict_tensor_states` -/
 def syncDict (e : Env) (kv : List (String × Tensor)) (col : List TState) : Prog (List TState) :=
@@ -496,11 +514,14 @@ def recvObjCol (col : List TState) : Resp → Prog (List TState)
 def syncObj (e : Env) (o : Obj) (col : List TState) : Prog (List TState) :=
   match e.dst with
   | none => .coll (.allGatherObj o) (recvObjCol col)
-  | some d => .coll (.gatherObj d (e.me == d) o) (recvObjCol col)
+  | some d =>
+    match toGlobal e d with
+    | some gd => .coll (.gatherObj gd (e.me == d) o) (recvObjCol col)   -- `dst=_to_global_rank(process_group, rank)`
+    | none => .fail .value
 
 /-- one state of the traversal: its column of `gathered_states`. -/
 def syncOne (e : Env) (st : TState) : Prog (List TState) :=
-  let col := List.replicate e.gws placeholder
+  let col := List.replicate e.ws placeholder          -- `range(dist.get_world_size(process_group))`
   match st with
   | .tensor t => syncTensor e t col
   | .list xs => syncList e xs col
@@ -521,13 +542,11 @@ def rowOf (keys : List Key) (cols : List (List TState)) (i : Nat) : List (Key ×
 
 /-- `return gathered_states` on receiving ranks, `None` elsewhere. -/
 def syncResult (e : Env) (keys : List Key) (cols : List (List TState)) : Option (List (List (Key × TState))) :=
-  let res := (List.range e.gws).map (rowOf keys cols)
-  match e.dst with
-  | none => some res
-  | some d => if e.me == d then some res else none
+  let res := (List.range e.ws).map (rowOf keys cols)
+  if e.recv then some res else none
 
 /-- `sync_states` on an already flattened state collection (traversal order given):
-    `None` on non-destination ranks, else one state collection per GLOBAL rank index. -/
+    `None` on non-destination ranks, else one state collection per member of the group. -/
 def syncFlat (e : Env) (entries : List (Key × TState)) : Prog (Option (List (List (Key × TState)))) :=
   (syncCols e entries).bind fun cols => .done (syncResult e (entries.map (·.1)) cols)
 
@@ -574,6 +593,9 @@ def getSyncedMetric {S : Type} (M : MetricI S) (init : Bool) (e : Env) (s : S) :
       match r with
       | none => .fail .assertion                      -- none_throws
       | some rows =>
+        -- `rank_data[_TMP]`: `sync_states` gives every metric of `states` a slot in every rank's
+        -- collection (`setdefault(metric_name, {})`), so a metric without any registered state is
+        -- gathered as the empty state dict (`statesOf` of a row without entries for it)
         let pseudo := rows.map (statesOf tmpName)
         liftE (M.mrg s' (pick pseudo (othersIdx ws e.me)))
 
